@@ -74,6 +74,92 @@ def generated(key, default=None):
     return _GEN.get(key, default)
 
 
+_DEGRADED = []
+
+
+def degraded(what):
+    """The harness could not read something off the running code the usual way (a renamed or restructured
+    attribute): it falls back and says so in the evidence (`harness_degraded`); it never stops the check."""
+    if what not in _DEGRADED:
+        _DEGRADED.append(what)
+
+
+def soft(obj, name, default=None):
+    """getattr for attributes of the implementation that are not part of what the property is about"""
+    try:
+        return getattr(obj, name)
+    except AttributeError:
+        degraded("%s has no attribute %r" % (getattr(obj, "__name__", None) or type(obj).__name__, name))
+        return default
+    except Exception as e:  # a property / __getattr__ that raises
+        degraded("%s.%s raised %s" % (getattr(obj, "__name__", None) or type(obj).__name__, name, type(e).__name__))
+        return default
+
+
+def soft_call(obj, name, *args):
+    f = soft(obj, name)
+    if callable(f):
+        try:
+            return f(*args)
+        except Exception as e:
+            degraded("%s(...) raised %s" % (name, type(e).__name__))
+    return None
+
+
+def forget_warnings(mod):
+    """the duplicate-warning suppression is state (a module-level dict): start each call afresh"""
+    d = soft(mod, "logging_seen_warnings")
+    if hasattr(d, "clear"):
+        d.clear()
+        return True
+    _STATE_NOT_RESET.add(getattr(mod, "__name__", "?"))
+    return False
+
+
+_STATE_NOT_RESET = set()  # modules whose duplicate-warning table the harness could not find (renamed / restructured)
+_CALIBRATION = [0]
+
+
+def calibration_message():
+    """an innocuous message, a new one each time: a WARNING seen before would be suppressed when the table cannot be reset"""
+    _CALIBRATION[0] += 1
+    return {"zz9": "c%d" % _CALIBRATION[0]}
+
+
+def unjudged_duplicate(out, printed, err):
+    """the structured logger answered "suppressed" (a repeated WARNING) and the harness could not reset the table it
+    keeps: nothing was emitted, nothing to judge, nothing to compare (a renamed table must not look like a defect)"""
+    return bool(_STATE_NOT_RESET) and err is None and out == "suppressed" and not printed
+
+
+def key_sources():
+    """The regular-expression sources the running code tests a key with: the table as written, else the
+    patterns of whatever was compiled from it, else what the extractor read / pinned.  Never an error."""
+    lf = impl()["lf"]
+    v = getattr(lf, "KEYS_TO_SANITIZE", None)
+    if isinstance(v, (list, tuple)) and v and all(isinstance(x, str) for x in v):
+        return list(v)
+    c = getattr(lf, "COMPILED_KEYS_TO_SANITIZE", None)
+    srcs = [p.pattern for p in (c if isinstance(c, (list, tuple)) else [c]) if isinstance(getattr(p, "pattern", None), str)]
+    if srcs:
+        degraded("log_formatter.KEYS_TO_SANITIZE is not a list of texts: key patterns read from COMPILED_KEYS_TO_SANITIZE")
+        return srcs
+    g = generated("c20.KEYS_TO_SANITIZE")
+    degraded("log_formatter has neither KEYS_TO_SANITIZE nor COMPILED_KEYS_TO_SANITIZE: key patterns as extracted / pinned")
+    return [x for x in g if isinstance(x, str)] if isinstance(g, list) else list(PATTERN_WORDS)
+
+
+def forget_exit_reports(*mods):
+    """log_for_level / write_event register an exit-time report for every first WARNING: drop them (the
+    report of a suppressed duplicate is measured by observe_suppression_report, it is not part of a run)"""
+    import atexit
+
+    for mod in mods:
+        f = getattr(mod, "report_suppressions", None)
+        if callable(f):
+            atexit.unregister(f)
+
+
 def guard_strip():
     iso = generated("c20.isolate")
     return iso[1] if isinstance(iso, list) and len(iso) == 3 and isinstance(iso[1], str) else " \t\r\n\ufeff"
@@ -86,12 +172,16 @@ def impl():
     os.environ.pop("K_SERVICE", None)
     from orso.logging import create_logger, google_cloud_logger, log_formatter
 
-    create_logger.get_logger.cache_clear()
+    soft_call(soft(create_logger, "get_logger"), "cache_clear")
     logger = create_logger.get_logger()
-    real = logger.handlers[0].formatter
-    if not isinstance(real, log_formatter.LogFormatter):
-        raise InfraError("get_logger() did not install a LogFormatter")
-    _STATE.update(lf=log_formatter, cl=create_logger, gl=google_cloud_logger, real=real, logger=logger)
+    handlers = getattr(logger, "handlers", None) or []
+    real = getattr(handlers[0], "formatter", None) if handlers else None
+    if not isinstance(real, getattr(log_formatter, "LogFormatter", ())):
+        # not a harness error: records logged through get_logger() are then judged by what is emitted
+        degraded("get_logger() did not install a LogFormatter on its first handler")
+    import sys
+
+    _STATE.update(lf=log_formatter, cl=create_logger, gl=google_cloud_logger, real=real, logger=logger, al=sys.modules.get("orso.logging.add_level"))
     return _STATE
 
 
@@ -304,8 +394,14 @@ def colour_env(colour):
 def make_formatter(layout_i, suppress):
     st = impl()
     fmt, style, datefmt = LAYOUTS[layout_i % len(LAYOUTS)]
+    orig = None
     if fmt == "create_logger":
-        orig = st["real"].orig_formatter
+        orig = getattr(st["real"], "orig_formatter", None)
+        if not isinstance(orig, logging.Formatter):
+            # the formatter get_logger() wraps cannot be read off the handler: build it from the constant, else a plain one
+            degraded("the inner formatter of get_logger()'s LogFormatter is not readable: layout 0 rebuilt")
+            lfmt = getattr(st["cl"], "LOG_FORMAT", None)
+            orig = logging.Formatter(lfmt if isinstance(lfmt, str) else LAYOUTS[3][0])
     else:
         orig = logging.Formatter(fmt, datefmt=datefmt, style=style)
     return st["lf"].LogFormatter(orig, suppress_color=suppress), orig
@@ -369,6 +465,17 @@ def digests_of(d, hash_it, out):
             digests_of(v, hash_it, out)
 
 
+def model_digests(obj, f=None):
+    """the digest parameter of the model for every member of `obj`; None when the running code has no hash_it to ask"""
+    f = f if f is not None else impl()["lf"].LogFormatter(None)
+    hash_it = soft(f, "hash_it")
+    if not callable(hash_it):
+        return None
+    digs = []
+    digests_of(obj, hash_it, digs)
+    return digs
+
+
 def wire_ok(v):
     try:
         wire.line(v)
@@ -387,7 +494,7 @@ def run_format(case):
         fmtr, orig = make_formatter(case.get("layout", 0), suppress)
         rec = make_record(case, msg)
         line = orig.format(rec)
-        can = fmtr._can_colorize()
+        can = soft_call(fmtr, "_can_colorize")  # None: the model cannot be given the colour setting -> oracle only
         try:
             out = fmtr.format(make_record(case, msg))
             err = None
@@ -396,8 +503,11 @@ def run_format(case):
     res = {"out": out, "err": err, "line": line, "can": can, "model_line": None}
     # the model's parameters: what the real parser says about each candidate, the real digests
     try:
+        hash_it = soft(fmtr, "hash_it")
+        if not isinstance(can, bool) or not callable(hash_it):
+            raise wire.WireError("a parameter of the model is not readable off the running code")
         parts = line.split("|")
-        if len(parts) * len(line) > 4_000_000:
+        if len(parts) * len(line) > 600_000:
             # the parameter table (one parse per candidate) would be quadratic: oracle only
             raise wire.WireError("record too long for the candidate table")
         parses, digs = [], []
@@ -414,7 +524,7 @@ def run_format(case):
                 if cand.lstrip(" \t\n\r")[:1] != "{" and cand.lstrip(guard_strip())[:1] != "{":
                     res["parser_assumption_violated"] = cand[:40]
                 parses.append([cand, to_wire(d)])
-                digests_of(d, fmtr.hash_it, digs)
+                digests_of(d, hash_it, digs)
             else:
                 parses.append([cand, None])
         res["model_line"] = "C20 format " + wire.line(bool(can), line, parses, digs)
@@ -485,17 +595,17 @@ def valid_case(c):
     return True
 
 
-def json_ok(v, depth=0):
+def json_ok(v, depth=0, nonfinite=False):
     if depth > 8:
         return False
     if v is None or isinstance(v, (bool, int, str)):
         return True
     if isinstance(v, float):
-        return v == v and abs(v) != float("inf")
+        return nonfinite or (v == v and abs(v) != float("inf"))
     if isinstance(v, list):
-        return all(json_ok(x, depth + 1) for x in v)
+        return all(json_ok(x, depth + 1, nonfinite) for x in v)
     if isinstance(v, dict):
-        return all(isinstance(k, str) and json_ok(x, depth + 1) for k, x in v.items())
+        return all(isinstance(k, str) and json_ok(x, depth + 1, nonfinite) for k, x in v.items())
     return False
 
 
@@ -512,16 +622,20 @@ def run_clean(case):
         err = None
     except Exception as e:
         res, err = None, type(e).__name__
-    digs = []
-    digests_of(case["obj"], f.hash_it, digs)
-    return res, err, "C20 clean " + wire.line(bool(colorize), to_wire(case["obj"]), digs)
+    digs = model_digests(case["obj"], f)
+    return res, err, (None if digs is None else "C20 clean " + wire.line(bool(colorize), to_wire(case["obj"]), digs))
 
 
 def severities():
     """every severity write_event is called with: the six LEVELS members, their plain integers, None"""
-    from orso.logging.levels import LEVELS as L
+    try:
+        from orso.logging.levels import LEVELS as L
 
-    return [L.DEBUG, L.INFO, L.WARNING, L.ERROR, L.AUDIT, L.ALERT, 10, 20, 30, 40, 80, 90, None, 25]
+        named = [L.DEBUG, L.INFO, L.WARNING, L.ERROR, L.AUDIT, L.ALERT]
+    except (ImportError, AttributeError):
+        degraded("orso.logging.levels.LEVELS does not have the six members: plain integers used as severities")
+        named = [10, 20, 30, 40, 80, 90]
+    return named + [10, 20, 30, 40, 80, 90, None, 25]
 
 
 SPANS = [None, "", "span-1", "SPANID77XX9Q"]
@@ -537,7 +651,7 @@ def _google_invoke(gl, obj, severity, span):
     frame four levels up: this function) gives the same source location for the calibration call and
     for the calls under test."""
     buf = io.StringIO()
-    gl.logging_seen_warnings.clear()  # duplicate-warning suppression is state: start each call afresh
+    forget_warnings(gl)  # duplicate-warning suppression is state: start each call afresh
     with contextlib.redirect_stdout(buf):
         out = _google_call(gl, obj, severity, span)
     return out, buf.getvalue()
@@ -551,7 +665,7 @@ def google_base(sev_i, span_i):
     key = (sev_i, span_i)
     if key not in _GOOGLE_BASE:
         gl = impl()["gl"]
-        out, _ = _google_invoke(gl, {"zz9": "1"}, severities()[sev_i], SPANS[span_i])
+        out, _ = _google_invoke(gl, calibration_message(), severities()[sev_i], SPANS[span_i])
         d = orjson.loads(out)
         d.pop("message", None)
         d.pop("zz9", None)
@@ -571,16 +685,14 @@ def run_google(case):
         err = None
     except Exception as e:
         out, printed, err = None, "", type(e).__name__
-    f = st["lf"].LogFormatter(None)
-    digs = []
-    digests_of(case["obj"], f.hash_it, digs)
+    digs = model_digests(case["obj"])
     try:
         base = google_base(sev_i, span_i)
     except InfraError:
         raise
     except Exception as e:  # write_event fails even on the calibration message: a defect, not a harness error
         return out, printed, err or type(e).__name__, None
-    return out, printed, err, "C20 event " + wire.line(base, to_wire(case["obj"]), digs)
+    return out, printed, err, (None if digs is None else "C20 event " + wire.line(base, to_wire(case["obj"]), digs))
 
 
 def run_google_text(case):
@@ -629,7 +741,7 @@ def _ginst_invoke(gl, loglevel, method, obj, reuse):
         else:
             os.environ["LOGGING_LEVEL"] = old
     buf = io.StringIO()
-    gl.logging_seen_warnings.clear()
+    forget_warnings(gl)
     with contextlib.redirect_stdout(io.StringIO()):
         if reuse:
             _ginst_call(logger, "alert", {"zz8": "first"})
@@ -645,7 +757,7 @@ def ginst_base(level_i, method_i):
     key = (level_i, method_i)
     if key not in _GINST_BASE:
         gl = impl()["gl"]
-        out, printed = _ginst_invoke(gl, GLEVELS[level_i], GMETHODS[method_i], {"zz9": "1"}, False)
+        out, printed = _ginst_invoke(gl, GLEVELS[level_i], GMETHODS[method_i], calibration_message(), False)
         if out is None and printed.endswith("\n") and GMETHODS[method_i] == "__call__":
             out = printed[:-1]  # GoogleLogger.__call__ returns nothing: the printed line is the output
         if out is None:
@@ -670,9 +782,7 @@ def run_ginst(case):
         err = None
     except Exception as e:
         out, printed, err = None, "", type(e).__name__
-    f = st["lf"].LogFormatter(None)
-    digs = []
-    digests_of(case["obj"], f.hash_it, digs)
+    digs = model_digests(case["obj"])
     try:
         base = ginst_base(level_i, method_i)
     except InfraError:
@@ -681,7 +791,7 @@ def run_ginst(case):
         return out, printed, err or type(e).__name__, None, False
     if base is None:
         return out, printed, err, None, True
-    return out, printed, err, "C20 event " + wire.line(base, to_wire(case["obj"]), digs), False
+    return out, printed, err, (None if digs is None else "C20 event " + wire.line(base, to_wire(case["obj"]), digs)), False
 
 
 def oracle_text(obj, text, placeholders=True, classified=None):
@@ -764,6 +874,8 @@ def _eval_one(case):
         return clause, {"out": res, "err": err}, ml, compare
     if kind == "google":
         out, printed, err, ml = run_google(case)
+        if unjudged_duplicate(out, printed, err):
+            return None, {"out": out, "err": None, "unjudged": "suppressed duplicate"}, None, (lambda m: None)
         clause = None
         if out is not None:
             clause = oracle_text(case["obj"], out) or oracle_text(case["obj"], printed, placeholders=False)
@@ -780,6 +892,8 @@ def _eval_one(case):
         return clause, {"out": out, "err": err}, ml, compare
     if kind in ("gurl", "gtext"):
         out, printed, err, ml = run_google_text(case)
+        if unjudged_duplicate(out, printed, err):
+            return None, {"out": out, "err": None, "unjudged": "suppressed duplicate"}, None, (lambda m: None)
         clause = None
         if out is not None and kind == "gurl":
             msg = message_of(case)
@@ -797,6 +911,8 @@ def _eval_one(case):
         return clause, {"out": out, "err": err}, ml, compare
     if kind == "ginst":
         out, printed, err, ml, filtered = run_ginst(case)
+        if unjudged_duplicate(out, printed, err):
+            return None, {"out": out, "err": None, "unjudged": "suppressed duplicate"}, None, (lambda m: None)
         clause = None
         if filtered:
             # the level filter dropped the calibration call: this call must be dropped as well
@@ -863,6 +979,8 @@ def evaluate(ctx, cases):
         if not valid_case(c):
             raise InfraError("generator produced an invalid case: %r" % (c,))
         runs.append(_eval_one(c))
+        if not ctx.replaying:
+            _HISTORY.append(c)
     lines = [(i, r[2]) for i, r in enumerate(runs) if r[2] is not None]
     mouts = ctx.model.batch([l for _, l in lines])
     mo_by_i = {i: o for (i, _), o in zip(lines, mouts)}
@@ -947,9 +1065,14 @@ def evaluate(ctx, cases):
                     return False
                 except Exception:
                     return False
+            if not ctx.replaying and any(v.get("sig") == clause for v in ctx.violations):
+                ctx.hit("violation-dup:" + clause)
+                continue
             c_min = c if ctx.replaying else shrink(drop_members(c, still), still, budget=250)
             cl2, view2, _, _ = _eval_one(c_min)
-            ctx.fail(c_min, cl2 or clause, impl=view2, model=m[0] if (m is not None and c_min is c) else None)
+            # does it fail by itself in a new interpreter?  if not, the replay carries the history it needs
+            c_rep = c_min if ctx.replaying else with_history(c_min, cl2 or clause)
+            ctx.fail(c_rep, cl2 or clause, impl=view2, model=m[0] if (m is not None and c_min is c) else None)
         elif m is not None:
             what = compare(m)
             if what is not None:
@@ -1152,7 +1275,7 @@ def google_settings_cases(ctx):
 
 URL_PRE = ["", "connect to ", "see http://example.com/a?b=1 and ", "a | b ", "'", "mail bob@example.com then ", "x://", "line1\n", '{"a": ', "dsn=", "://", "@ ", "`"]
 URL_POST = ["", "/db failed", ":5432/db?sslmode=require", " | retry", "'", " and ftp://u2:%(tok)s@h2/", " then amqp://%(tok)s:%(tok2)s@mq and x@y", "\nredis://:%(tok)s@cache:6379/0", "\nnext", " @ ", "`", '"}']
-URL_SCHEME = ["postgres", "https", "ftp", "mongodb+srv", "redis", "amqp", "s3", ""]
+URL_SCHEME = ["postgres", "https", "ftp", "mongodb+srv", "redis", "amqp", "s3", "", "HTTPS", "S3", "Postgres", "hTTp", "git+SSH", "x-1.2", "JDBC:postgresql"]
 
 
 def url_case(rng):
@@ -1161,6 +1284,19 @@ def url_case(rng):
     return frame(rng, kind="url", pre=rng.choice(URL_PRE) + rng.choice(["", token(rng) + " "]), scheme=rng.choice(URL_SCHEME), user=user,
                  password=pw, host=rng.choice(["host", "db.example.com", "10.0.0.1", "h-" + token(rng)]),
                  post=rng.choice(URL_POST).replace("%(tok)s", token(rng)).replace("%(tok2)s", token(rng)))
+
+
+def url_scheme_cases(ctx):
+    """every scheme spelling (RFC 3986: letters of either case, digits, `+`, `-`, `.`) x text formatter / structured
+    logger x a few surroundings: the URL rule must not depend on how the scheme is written"""
+    rng = ctx.rng
+    i = 0
+    for scheme in URL_SCHEME:
+        for pre, post in (("", ""), ("connect to ", "/db failed"), ("a | b ", " | retry")):
+            user = ["svc", token(rng), ""][i % 3]
+            yield frame(rng, kind="url", pre=pre, scheme=scheme, user=user, password=token(rng), host="db.example.com", post=post, layout=i % len(LAYOUTS), colour=i % 2)
+            yield {"kind": "gurl", "pre": pre, "scheme": scheme, "user": user, "password": token(rng), "host": "h", "post": post, "severity": i % 14, "span": i % len(SPANS)}
+            i += 1
 
 
 def random_case(ctx, keys):
@@ -1305,7 +1441,8 @@ def ginst_cases(ctx, n):
 def check_fold_table(ctx):
     """Model.foldChar against re.IGNORECASE over every code point, for the characters of the patterns."""
     st = impl()
-    chars = sorted({ch for src in st["lf"].KEYS_TO_SANITIZE for ch in src if ch.isalnum() or ch == "_"})
+    # the characters a key pattern can contain: the statement's words and whatever the running code compiles
+    chars = sorted({ch for src in list(PATTERN_WORDS) + key_sources() for ch in src if ch.isalnum() or ch == "_"})
     top = ctx.scale(0x3000, 0x110000)
     universe = "".join(chr(i) for i in range(top) if not 0xD800 <= i <= 0xDFFF)
     py = {}
@@ -1338,6 +1475,7 @@ def check_sens_vs_spec(ctx, keys):
         if not o.startswith("ok "):
             raise InfraError("sens op rejected %r" % k)
         m = wire.dec_all(o[3:])[0]
+        _HISTORY.append({"kind": "clean", "obj": {k: probe}, "colorize": False})
         try:
             i = probe not in "".join(f.clean_record({k: probe}, False).values())
         except Exception:
@@ -1373,14 +1511,339 @@ def oracle_surrogate(ctx):
         ctx.fail(c, "value under a sensitive key is emitted", impl={"out": r["out"], "err": r["err"]})
 
 
+E2E_METHODS = ["error", "info", "audit", "alert", "debug", "warning"]
+E2E_FILLER = "lorem ipsum dolor sit amet "  # lower case: no token, no escape, one character = one byte
+
+
+@contextlib.contextmanager
+def captured(logger):
+    """everything a call on the logger writes: the stream of every handler, and stdout (the structured logger)"""
+    buf = io.StringIO()
+    olds = []
+    for h in getattr(logger, "handlers", None) or []:
+        if hasattr(h, "stream"):
+            olds.append((h, h.stream))
+            h.stream = buf
+    try:
+        with contextlib.redirect_stdout(buf):
+            yield buf
+    finally:
+        for h, o in olds:
+            h.stream = o
+
+
+def e2e_text(obj):
+    """the message text add_level.py makes of a dict (orjson first, then json): its length is what a size
+    threshold anywhere between the call and the handler would be keyed on"""
+    import orjson
+
+    try:
+        return orjson.dumps(obj).decode()
+    except Exception:
+        try:
+            return json.dumps(obj, default=str)
+        except Exception:
+            return str(obj)
+
+
+def e2e_obj(case):
+    """the dict an `e2e` case logs.  `pad_to` = N and `pad_key` = k: the text value under k (top level) is
+    extended with lower-case filler until the message text is exactly N characters long (if it is shorter)."""
+    obj = case["obj"]
+    n, k = case.get("pad_to"), case.get("pad_key")
+    if not isinstance(n, int) or isinstance(n, bool) or not isinstance(k, str):
+        return obj
+    obj = dict(obj)
+    obj[k] = obj[k] if isinstance(obj.get(k), str) else ""
+    short = n - len(e2e_text(obj))
+    if short > 0:
+        obj[k] = obj[k] + (E2E_FILLER * (short // len(E2E_FILLER) + 1))[:short]
+    return obj
+
+
+def valid_e2e(c):
+    return (isinstance(c, dict) and c.get("kind") == "e2e" and isinstance(c.get("obj"), dict) and json_ok(c["obj"], nonfinite=True)
+            and c.get("method", "error") in E2E_METHODS and isinstance(c.get("colour", 0), int) and c.get("colour", 0) >= 0
+            and c.get("as", "dict") in E2E_AS and isinstance(c.get("repeat", False), bool)
+            and ("pad_to" not in c or (isinstance(c["pad_to"], int) and not isinstance(c["pad_to"], bool) and 0 <= c["pad_to"] <= 1 << 23))
+            and ("pad_key" not in c or isinstance(c["pad_key"], str)) and ("log_name" not in c or isinstance(c["log_name"], str))
+            and ("before" not in c or (isinstance(c["before"], list) and all(valid_e2e(b) and "before" not in b for b in c["before"]))))
+
+
+E2E_AS = ["dict", "text", "bytes"]
+_WARNED = set()
+
+
+class _Collector(logging.Handler):
+    """sees the LogRecord before any formatter does: what `log_for_level` handed to `Logger._log`"""
+
+    def __init__(self):
+        super().__init__(level=0)
+        self.msgs = []
+
+    def emit(self, record):
+        self.msgs.append(record.msg)
+
+
+def run_e2e(case, logger=None):
+    """logger.<method>(dict | its JSON text | its JSON bytes) through get_logger() -> (emitted text, the dict,
+    failing clause | None, info).  `repeat`: the same call is made twice and the second one is judged (use, use
+    again: a repeated WARNING is dropped, anything else is emitted again).  info["handed"] is the text that
+    reached Logger._log (None when nothing did), info["model_line"] the same question put to the model."""
+    st = impl()
+    logger = logger if logger is not None else st["logger"]
+    obj = e2e_obj(case)
+    how = case.get("as", "dict")
+    method = case.get("method", "error")
+    old_level = getattr(logger, "level", None)
+    reset = all([forget_warnings(m) for m in (st.get("al"), st["gl"]) if m is not None])
+    arg = obj if how == "dict" else e2e_text(obj) if how == "text" else e2e_text(obj).encode("utf-8", "surrogatepass")
+    col = _Collector() if callable(getattr(logger, "addHandler", None)) else None
+    err = None
+    try:
+        logger.setLevel(1)
+        if col is not None:
+            logger.addHandler(col)
+        for turn in range(2 if case.get("repeat") else 1):
+            if col is not None:
+                del col.msgs[:]
+            with captured(logger) as buf, colour_env(COLOURS[case.get("colour", 0) % len(COLOURS)]):
+                try:
+                    getattr(logger, method)(arg)
+                except Exception as e:
+                    err = type(e).__name__
+            text = buf.getvalue()
+    finally:
+        if col is not None:
+            logger.removeHandler(col)
+        if old_level is not None:
+            logger.setLevel(old_level)
+    info = {"handed": None, "model_line": None, "err": err}
+    # add_level.py: a repeated WARNING is suppressed.  When the table of seen warnings could not be reset (renamed), a text
+    # this process has sent before counts as repeated, too.
+    stale = (not reset) and method == "warning" and e2e_text(obj) in _WARNED
+    if method == "warning":
+        _WARNED.add(e2e_text(obj))
+    dropped = (bool(case.get("repeat")) or stale) and method == "warning"
+    if col is not None:
+        info["handed"] = col.msgs[0] if len(col.msgs) == 1 and isinstance(col.msgs[0], str) else (None if not col.msgs else ["?"] + [repr(m)[:80] for m in col.msgs])
+        try:
+            import orjson
+
+            try:
+                oj = orjson.dumps(obj).decode()
+            except Exception:
+                oj = None
+            try:
+                js = json.dumps(obj, default=str)
+            except Exception:
+                js = None
+            warg = to_wire(obj) if how == "dict" else arg if how == "text" else ["b", arg.decode("utf-8", "surrogatepass")]
+            if len(e2e_text(obj)) <= 300000:
+                info["model_line"] = "C20 logmsg " + wire.line(warg, oj, js, str(obj), True, method == "warning", dropped)
+        except (wire.WireError, UnicodeError, InfraError, RecursionError):
+            info["model_line"] = None
+    if any(isinstance(x, float) and (x != x or x in (float("inf"), float("-inf"))) for x in obj.values()):
+        view = {k: v for k, v in obj.items() if not isinstance(v, float)}  # nan/inf are written as null: nothing to see
+    else:
+        view = obj
+    if not text:
+        if dropped and err is None:
+            return text, obj, None, info
+        return text, obj, "record was not emitted" + (" (%s raised)" % err if err else ""), info
+    if how != "dict" and spec_object(e2e_text(obj)) is None:
+        return text, obj, None, info  # a text the parser refuses (a raw surrogate in bytes ...) is a plain text
+    return text, obj, oracle_text(view, text, placeholders=not dropped), info
+
+
+def e2e_full(case):
+    """an `e2e` case with everything it names: the logger name set first (a new logger is built), the calls listed
+    under `before` made first (not judged), then the call itself -> (text, dict, clause, info)"""
+    st = impl()
+    logger = None
+    try:
+        if isinstance(case.get("log_name"), str) and callable(getattr(st["cl"], "set_log_name", None)):
+            st["cl"].set_log_name(case["log_name"])
+            logger = st["cl"].get_logger()
+        for b in case.get("before", []):
+            run_e2e(b, logger)
+        return run_e2e(case, logger)
+    finally:
+        if logger is not None:
+            st["cl"].set_log_name("DEFAULT")
+            st["logger"] = st["cl"].get_logger()
+        forget_exit_reports(st["gl"], st.get("al"))
+
+
+def clause_of(case):
+    """the failing clause of any replayable case, implementation and oracle only (no model): what a fresh
+    interpreter is asked when a failure may depend on what the process did before"""
+    kind = case.get("kind") if isinstance(case, dict) else None
+    if kind == "hist":
+        for b in case["before"]:
+            try:
+                clause_of(b)
+            except InfraError:
+                raise
+            except Exception:
+                pass
+        return clause_of(case["case"])
+    if kind == "e2e":
+        return e2e_full(case)[2] if valid_e2e(case) else None
+    if kind == "seq":
+        if not valid_seq(case):
+            return None
+        return next((r[3] for r in run_seq(case) if r[3]), None)
+    return _eval_one(case)[0] if valid_case(case) else None
+
+
+def valid_hist(c):
+    ok = lambda x: valid_case(x) or valid_e2e(x) or valid_seq(x)
+    return (isinstance(c, dict) and c.get("kind") == "hist" and isinstance(c.get("before"), list) and all(ok(b) for b in c["before"])
+            and ok(c.get("case")))
+
+
+def fresh_clause(case):
+    """the same question asked in a NEW interpreter: module-level state of the implementation (a cache, a table of
+    seen messages) that earlier cases of this run left behind is gone, so a failure that needs a history shows"""
+    import subprocess
+    import sys
+
+    from .. import core
+
+    code = ("import sys, json\nfrom harness import runner, core\nrunner.setup_impl_path()\nfrom harness.props import c20\n"
+            "c = core.unjson(json.loads(sys.stdin.read()))\nprint('CLAUSE ' + json.dumps(c20.clause_of(c)))\n")
+    try:
+        p = subprocess.run([sys.executable, "-c", code], input=json.dumps(core._jsonable(case)), cwd=core.VERIF, capture_output=True, text=True, timeout=300)
+        for ln in p.stdout.splitlines():
+            if ln.startswith("CLAUSE "):
+                return json.loads(ln[7:])
+    except Exception:
+        pass
+    return "?"
+
+
+_HISTORY = []  # every case this process has handed to the implementation, in order
+
+
+def with_history(case, clause, earlier=None, budget_s=75):
+    """`case` failed with `clause` in this process.  If it fails the same way in a fresh interpreter it is returned as
+    it is (the usual thing).  If not, the failure needs a history: -> {"kind": "hist", "before": [...], "case": case}
+    (for an `e2e` case: the case with a `before` list) with the shortest run of earlier cases found, by a few
+    fresh-interpreter probes, under which it fails the same way in a new process."""
+    import time
+
+    t0 = time.time()
+    if fresh_clause(case) == clause:
+        return case
+    e2e = case.get("kind") == "e2e"
+    earlier = list(_HISTORY if earlier is None else earlier)
+    strip = lambda e: {k: v for k, v in e.items() if k not in ("before", "log_name")} if e2e else e
+    wrap = (lambda before: dict(case, before=before)) if e2e else (lambda before: {"kind": "hist", "before": before, "case": case})
+    keyset = lambda c: tuple(sorted(c["obj"].keys())) if isinstance(c.get("obj"), dict) else None
+    same = [e for e in earlier if keyset(e) is not None and keyset(e) == keyset(case)]
+    tried = set()
+    for before in ([same[-1]] if same else []), same[-3:], earlier[-1:], earlier[-10:], earlier[-100:], earlier[-1000:], earlier:
+        before = [strip(e) for e in before if e is not case]
+        if not before or len(before) in tried or time.time() - t0 > budget_s:
+            continue
+        tried.add(len(before))
+        if fresh_clause(wrap(before)) == clause:
+            while len(before) > 1 and time.time() - t0 < budget_s:  # halve while it still fails
+                half = before[len(before) // 2:]
+                if fresh_clause(wrap(half)) == clause:
+                    before = half
+                    continue
+                half = before[: len(before) // 2]
+                if fresh_clause(wrap(half)) == clause:
+                    before = half
+                    continue
+                break
+            if len(before) <= 2:
+                # the history itself, smaller: drop members of its dictionaries while the failure stays (a dozen probes)
+                probes = [0]
+
+                def still(c2):
+                    probes[0] += 1
+                    return probes[0] <= 12 and time.time() - t0 < budget_s and fresh_clause(wrap(before[:j] + [c2] + before[j + 1:])) == clause
+                for j in range(len(before)):
+                    if isinstance(before[j].get("obj"), dict):
+                        before[j] = drop_members(before[j], still)
+            return wrap(before)
+    return dict(case, note="failed in the run after %d earlier cases; not reproduced in a fresh interpreter by itself" % len(earlier))
+
+
+def shrink_e2e(case, clause):
+    """smallest dict, smallest padded length (bisection: a size threshold shows as the exact boundary), plainest settings"""
+    def still(c):
+        try:
+            return valid_e2e(c) and e2e_full(c)[2] == clause
+        except Exception:
+            return False
+
+    cur = drop_members(case, still)
+    if "log_name" in cur:
+        c2 = {a: b for a, b in cur.items() if a != "log_name"}
+        if still(c2):
+            cur = c2
+    for k in ("repeat", "as"):
+        c2 = {a: b for a, b in cur.items() if a != k}
+        if k in cur and still(c2):
+            cur = c2
+    for k, v in (("method", "error"), ("colour", 1)):
+        c2 = dict(cur, **{k: v})
+        if cur.get(k) != v and still(c2):
+            cur = c2
+    if isinstance(cur.get("pad_to"), int):
+        c2 = {k: v for k, v in cur.items() if k not in ("pad_to", "pad_key")}
+        if still(c2):
+            return c2
+        lo, hi = 0, cur["pad_to"]  # fails at hi; find the least length that still fails (if failing is monotone in it)
+        while hi - lo > 1:
+            mid = (lo + hi) // 2
+            if still(dict(cur, pad_to=mid)):
+                hi = mid
+            else:
+                lo = mid
+        cur = dict(cur, pad_to=hi)
+    return cur
+
+
+def e2e_long_cases(ctx):
+    """Dictionaries whose message text is exactly 2^k - 1, 2^k, 2^k + 1 characters (k = 6 .. 17, thorough .. 21), and
+    round decimal sizes, logged through every level method: a cap / fast path / chunking keyed on the length of the
+    serialised message anywhere between logger.<level>(dict) and the handler.  Three places for the long value:
+    visible text after the secret, visible text before the secret, the secret itself."""
+    rng = ctx.rng
+    sizes = []
+    for k in range(6, ctx.scale(17, 21) + 1):
+        sizes += [2 ** k - 1, 2 ** k, 2 ** k + 1]
+    sizes += ctx.scale([1000, 10000, 100000], [1000, 4000, 10000, 32000, 50000, 65000, 100000, 1000000])
+    i = 0
+    for n in sizes:
+        shape = i % 4
+        if shape == 0:
+            obj, key = {"db_password": token(rng), "note": token(rng) + " ", "v": token(rng)}, "note"
+        elif shape == 1:
+            obj, key = {"v": token(rng), "note": token(rng) + " ", "ctx": {"x_token": token(rng), "w": token(rng)}}, "note"
+        elif shape == 2:
+            obj, key = {"v": token(rng), "api_key": token(rng) + " "}, "api_key"
+        else:
+            obj, key = {"caf\u00e9": token(rng) + " \u00e9\u4e2d ", "My_Credentials_2": [token(rng)], "pad": ""}, "pad"
+        yield {"kind": "e2e", "obj": obj, "pad_key": key, "pad_to": n, "colour": i % len(COLOURS), "method": E2E_METHODS[i % len(E2E_METHODS)]}
+        i += 1
+    # every level method with a message beyond the largest size above (a threshold in one method only)
+    top = 2 ** ctx.scale(17, 21) + 7
+    for j, m in enumerate(E2E_METHODS):
+        yield {"kind": "e2e", "obj": {"db_password": token(rng), "note": token(rng) + " ", "v": token(rng)}, "pad_key": "note", "pad_to": top, "colour": j % 2, "method": m}
+        yield {"kind": "e2e", "obj": {"v": token(rng), "x_secret": token(rng) + " "}, "pad_key": "x_secret", "pad_to": top // 2 + j, "colour": (j + 1) % 2, "method": m}
+
+
 def end_to_end(ctx, n):
-    """logger.error(dict) through get_logger(): add_level.py serialises the dict (orjson, or json when orjson
+    """logger.<level>(dict) through get_logger(): add_level.py serialises the dict (orjson, or json when orjson
     refuses it), the handler formats.  Every dict that is a JSON object is demanded."""
     st = impl()
     rng = ctx.rng
-    logger = st["logger"]
-    handler = logger.handlers[0]
-    old_stream, old_level = handler.stream, logger.level
     keys = all_keys(rng)
     special = [
         {"password": token(rng), "n": 2 ** 64, "v": token(rng)},                     # orjson: integer beyond 64 bits
@@ -1390,82 +1853,100 @@ def end_to_end(ctx, n):
         {"ctx": {"api_key": token(rng), "big": -(10 ** 30)}, "v": token(rng)},
         {"password": token(rng), "x": float("nan"), "y": float("inf"), "v": token(rng)},  # orjson writes null
     ]
+    cases = [{"kind": "e2e", "obj": o, "colour": i % len(COLOURS), "method": E2E_METHODS[i % 5]} for i, o in enumerate(special)]
+    cases += list(e2e_long_cases(ctx))
+    # every level method x (dict | its JSON text | its JSON bytes) x (first call | the same call again)
+    for j, m in enumerate(E2E_METHODS):
+        for how in E2E_AS:
+            for repeat in (False, True):
+                obj = {"db_password": text_marker(rng, 1), "note": text_marker(rng, 0), "ctx": {"api_key": {"v": token(rng)}, "x": token(rng)}, "My_Credentials_2": [token(rng)]}
+                cases.append({"kind": "e2e", "obj": obj, "colour": j % 2, "method": m, "as": how, "repeat": repeat})
+    for i in range(n):
+        ec = {"kind": "e2e", "obj": random_obj(rng, keys, rng.choice([0, 1, 2])), "colour": i % len(COLOURS), "method": E2E_METHODS[i % len(E2E_METHODS)]}
+        if rng.random() < 0.3:
+            ec["as"] = rng.choice(E2E_AS)
+        if rng.random() < 0.2:
+            ec["repeat"] = True
+        cases.append(ec)
     renamed = None
+    handed = []
     try:
-        logger.setLevel(1)
-        for i in range(n + len(special)):
-            obj = special[i] if i < len(special) else random_obj(rng, keys, rng.choice([0, 1, 2]))
-            if i == (n + len(special)) // 2:
+        for i, ec in enumerate(cases):
+            if i == len(cases) // 2:
                 # use, mutate, use again: set_log_name() clears the cached logger; the next get_logger() builds a new
                 # one whose name (a header field) contains the field separator and looks like a level token
-                st["cl"].set_log_name("SVC|x ERROR    y")
-                renamed = st["cl"].get_logger()
-                renamed.setLevel(1)
-            buf = io.StringIO()
-            lg = renamed if renamed is not None else logger
-            lg.handlers[0].stream = buf
-            with colour_env(COLOURS[i % len(COLOURS)]):
-                getattr(lg, ["error", "info", "audit", "alert", "debug"][i % 5])(obj)
-            text = buf.getvalue()
+                sln = soft(st["cl"], "set_log_name")
+                if callable(sln):
+                    sln("SVC|x ERROR    y")
+                    renamed = st["cl"].get_logger()
             if renamed is not None:
+                ec["log_name"] = "SVC|x ERROR    y"
                 ctx.hit("end-to-end:after-set_log_name")
-            c = {"kind": "json", "obj": obj, "layout": 0, "colour": i % len(COLOURS), "level": 3, "enc": 2}
-            ctx.case(c, True, key="e2e:" + json.dumps(obj, sort_keys=True, default=repr))
+            text, obj, clause, info = run_e2e(ec, renamed)
+            if not ctx.replaying:
+                _HISTORY.append(ec)
+            ctx.case(ec, True)
             ctx.hit("kind:end-to-end")
+            ctx.hit("end-to-end:method=%s%s" % (ec["method"], ":again" if ec.get("repeat") else ""))
+            ctx.hit("end-to-end:argument=" + ec.get("as", "dict"))
+            if info["model_line"] is not None and not clause:
+                handed.append((ec, info))
+            try:
+                if json_ok(obj):
+                    ctx.hit("end-to-end:json.loads(message)==dict:%s" % (spec_object(e2e_text(obj)) == obj))
+            except Exception:
+                pass
             if i < len(special):
                 ctx.hit("end-to-end:orjson-refuses-or-rewrites")
-            if any(isinstance(x, float) and x != x for x in obj.values()):
-                view = {k: v for k, v in obj.items() if not isinstance(v, float)}  # nan/inf are written as null: nothing to see
+            nlen = len(e2e_text(obj))
+            if "pad_to" in ec:
+                k2 = nlen.bit_length() - 1 if nlen & (nlen - 1) == 0 or (nlen - 1) & (nlen - 2) == 0 else nlen.bit_length()
+                ctx.hit("end-to-end:message-length:2^%d%+d" % (k2, nlen - 2 ** k2) if abs(nlen - 2 ** k2) <= 1 else "end-to-end:message-length:%d" % nlen)
             else:
-                view = obj
-            clause = oracle_text(view, text) if text else "record was not emitted"
+                ctx.hit("end-to-end:message-length:%s" % ("<200" if nlen < 200 else "<1000" if nlen < 1000 else "<10000" if nlen < 10000 else ">=10000"))
             if clause:
-                # replay through the direct path (same message encoding) so the failure is reproducible
-                if json_ok(obj):
+                # first through the direct path (same message encoding): a failure of the formatter itself is reported there
+                c = {"kind": "json", "obj": obj, "layout": 0, "colour": ec["colour"], "level": 3, "enc": 2}
+                direct = None
+                if json_ok(obj) and "pad_to" not in ec:
+                    try:
+                        direct = _eval_one(c)[0]
+                    except Exception:
+                        direct = None
+                if direct is not None:
                     evaluate(ctx, [c])
-                if not ctx.violations:
-                    ec = {"kind": "e2e", "obj": obj, "colour": i % len(COLOURS), "method": ["error", "info", "audit", "alert", "debug"][i % 5]}
-                    if renamed is not None:
-                        ec["log_name"] = "SVC|x ERROR    y"
-                    ctx.fail(ec, clause + " (through get_logger())", impl={"out": text})
+                elif any(v.get("sig", "").endswith("(through get_logger())") for v in ctx.violations) and not ctx.replaying:
+                    ctx.hit("violation-dup:" + clause + " (through get_logger())")  # one minimised end-to-end replay is enough
+                else:
+                    small = ec if ctx.replaying else with_history(shrink_e2e(ec, clause), clause, cases[:i])
+                    small = small if small.get("kind") == "e2e" else ec
+                    t2, _, cl2, _ = e2e_full(small)
+                    ctx.fail(small, (cl2 or clause) + " (through get_logger())", impl={"out": t2[:2000], "message_length": len(e2e_text(e2e_obj(small)))})
     finally:
-        handler.stream = old_stream
-        logger.setLevel(old_level)
         if renamed is not None:
-            st["cl"].set_log_name("DEFAULT")
+            soft_call(st["cl"], "set_log_name", "DEFAULT")
             st["logger"] = st["cl"].get_logger()
+        forget_exit_reports(st["gl"], st.get("al"))
+    # correspondence of the hand-over: what reached Logger._log against Model.logForLevel (C20.generated_log_for_level_eq_model)
+    outs = ctx.model.batch([info["model_line"] for _, info in handed])
+    for (ec, info), o in zip(handed, outs):
+        if not o.startswith("ok "):
+            raise InfraError("logmsg op rejected %r: %r" % (ec, o))
+        want = wire.dec_all(o[3:])[0]
+        ctx.hit("end-to-end:hand-over:%s" % ("dropped" if want is None else "compared"))
+        if info["handed"] != want:
+            ctx.disagree(ec, {"handed_to_log": info["handed"] if not isinstance(info["handed"], str) else info["handed"][:300] + ("..." if len(info["handed"]) > 300 else ""),
+                              "length": len(info["handed"]) if isinstance(info["handed"], str) else None},
+                         {"length": len(want) if isinstance(want, str) else None}, "log_for_level hands another text to Logger._log than the model")
 
 
 def replay_e2e(ctx, case):
-    st = impl()
-    if isinstance(case.get("log_name"), str):
-        st["cl"].set_log_name(case["log_name"])
-        try:
-            _replay_e2e(ctx, case, st["cl"].get_logger())
-        finally:
-            st["cl"].set_log_name("DEFAULT")
-            st["logger"] = st["cl"].get_logger()
-        return
-    _replay_e2e(ctx, case, st["logger"])
-
-
-def _replay_e2e(ctx, case, logger):
-    handler = logger.handlers[0]
-    old_stream, old_level = handler.stream, logger.level
-    try:
-        logger.setLevel(1)
-        buf = io.StringIO()
-        handler.stream = buf
-        with colour_env(COLOURS[case.get("colour", 0) % len(COLOURS)]):
-            getattr(logger, case.get("method", "error"))(case["obj"])
-        text = buf.getvalue()
-    finally:
-        handler.stream = old_stream
-        logger.setLevel(old_level)
+    if not valid_e2e(case):
+        raise InfraError("invalid e2e case: %r" % (case,))
+    text, obj, clause, _ = e2e_full(case)
     ctx.case(case, True)
-    clause = oracle_text(case["obj"], text) if text else "record was not emitted"
     if clause:
-        ctx.fail(case, clause + " (through get_logger())", impl={"out": text})
+        ctx.fail(case, clause + " (through get_logger())", impl={"out": text[:2000], "message_length": len(e2e_text(obj))})
 
 
 def check_digest(ctx):
@@ -1481,9 +1962,15 @@ def check_digest(ctx):
     b = st["lf"].LogFormatter(logging.Formatter("%(message)s"), suppress_color=True)
     vals = ["", "x", token(rng), "\u00e9\u4e2d\U0001f600", "\ud800" + token(rng), str(2 ** 64), str({"a": [1, None]}), "a|b", " ERROR    "]
     vals += [text_marker(rng) for _ in range(40)]
+    if not (callable(soft(a, "hash_it")) and callable(soft(b, "hash_it"))):
+        ctx.note("digest", "not pinned: the formatter has no hash_it (the oracle then asks for no digest)")
+        return
     for v in vals:
         want = hashlib.sha256(v.encode("utf-8", "surrogatepass")).hexdigest()[:n]
-        got = [a.hash_it(v), b.hash_it(v), a.hash_it(v)]
+        try:
+            got = [a.hash_it(v), b.hash_it(v), a.hash_it(v)]
+        except Exception as e:
+            got = ["raised " + type(e).__name__]
         ctx.hit("digest:checked")
         if any(g != want for g in got):
             ctx.disagree({"kind": "clean", "obj": {"password": v}, "colorize": False}, {"hash_it": got}, {"sha256_prefix": want},
@@ -1500,7 +1987,7 @@ def observe_suppression_report(ctx):
     gl = st["gl"]
     tok = "SUPPRESSED7" + token(ctx.rng)
     msg = {"password": tok}
-    gl.logging_seen_warnings.clear()
+    forget_warnings(gl)
     try:
         with contextlib.redirect_stdout(io.StringIO()):
             gl.GoogleLogger.write_event(msg, "sys", severities()[2])
@@ -1508,7 +1995,7 @@ def observe_suppression_report(ctx):
         buf = io.StringIO()
         old = os.environ.get("K_SERVICE")
         os.environ["K_SERVICE"] = "x"
-        st["cl"].get_logger.cache_clear()
+        soft_call(soft(st["cl"], "get_logger"), "cache_clear")
         try:
             with contextlib.redirect_stdout(buf):
                 gl.report_suppressions(str(msg))
@@ -1517,15 +2004,14 @@ def observe_suppression_report(ctx):
                 os.environ.pop("K_SERVICE", None)
             else:
                 os.environ["K_SERVICE"] = old
-            st["cl"].get_logger.cache_clear()
+            soft_call(soft(st["cl"], "get_logger"), "cache_clear")
         ctx.note("observation_suppression_report", "second identical warning returned %r; the exit-time report of the structured logger %s the value "
                  "logged under 'password' (no demand: the report is a different, plain-text record)" % (second, "contains" if tok in buf.getvalue() else "does not contain"))
     except Exception as e:
         ctx.note("observation_suppression_report", "not measured: %s" % type(e).__name__)
     finally:
-        gl.logging_seen_warnings.clear()
-        import atexit
-        atexit.unregister(gl.report_suppressions)
+        forget_warnings(gl)
+        forget_exit_reports(gl)
 
 
 def run(ctx):
@@ -1555,6 +2041,10 @@ def run(ctx):
     evaluate(ctx, batch)
     evaluate(ctx, list(parser_cases(ctx)))
     evaluate(ctx, list(long_cases(ctx)))
+    evaluate(ctx, list(dimension_cases(ctx)))
+    for c in sequence_cases(ctx):
+        eval_seq(ctx, c)
+    evaluate(ctx, list(url_scheme_cases(ctx)))
     evaluate(ctx, list(google_text_cases(ctx, ctx.scale(150, 3000))))
     evaluate(ctx, list(ginst_cases(ctx, ctx.scale(100, 3000))))
     observe_suppression_report(ctx)
@@ -1586,6 +2076,7 @@ def run(ctx):
         evaluate(ctx, [random_case(ctx, keys) for _ in range(k)])
         done += k
     ctx.note("random_cases", done)
+    ctx.note("harness_degraded", list(_DEGRADED))
 
 
 def intensify(ctx):
@@ -1597,11 +2088,150 @@ def intensify(ctx):
         evaluate(ctx, [random_case(ctx, keys) for _ in range(1500)])
 
 
+# --------------------------------------------------------------------------- one object, several records
+
+
+def valid_seq(c):
+    return (isinstance(c, dict) and c.get("kind") == "seq" and isinstance(c.get("items"), list) and c["items"]
+            and all(valid_case(x) and x["kind"] in ("json", "url", "text") for x in c["items"])
+            and all(isinstance(c.get(k, 0), int) and not isinstance(c.get(k, 0), bool) and c.get(k, 0) >= 0 for k in ("layout", "colour")))
+
+
+def run_seq(case):
+    """ONE LogFormatter (and one GoogleLogger-free clean_record path) formats the items in order: use, use again.
+    -> list of (item, output of the shared formatter, output of a fresh formatter, failing clause | None).
+    A formatter that remembers anything of an earlier record (a parse cache keyed on the length, a reused
+    dictionary, a flag set by the first record) shows as a difference from the fresh one or as an oracle failure."""
+    out = []
+    with colour_env(COLOURS[case.get("colour", 0) % len(COLOURS)]) as suppress:
+        shared, _ = make_formatter(case.get("layout", 0), suppress)
+        for it in case["items"]:
+            it = dict(it, layout=case.get("layout", 0), colour=case.get("colour", 0))
+            msg = message_of(it)
+            try:
+                got = shared.format(make_record(it, msg))
+            except Exception as e:
+                got = None
+            fresh, _ = make_formatter(case.get("layout", 0), suppress)
+            try:
+                want = fresh.format(make_record(it, msg))
+            except Exception:
+                want = None
+            out.append((it, got, want, oracle_format(it, got)))
+    return out
+
+
+def eval_seq(ctx, case):
+    if not valid_seq(case):
+        raise InfraError("invalid seq case: %r" % (case,))
+    res = run_seq(case)
+    if not ctx.replaying:
+        _HISTORY.append(case)
+    ctx.case(case, True)
+    ctx.hit("kind:sequence-on-one-formatter")
+    ctx.hit("sequence:length=%d" % len(case["items"]))
+    for i, (it, got, want, clause) in enumerate(res):
+        if clause:
+            def still(c2, clause=clause):
+                try:
+                    return valid_seq(c2) and run_seq(c2)[-1][3] == clause
+                except Exception:
+                    return False
+            small = dict(case, items=case["items"][: i + 1])
+            if not ctx.replaying:
+                # drop earlier records while the last one still fails (none left: the failure needs no history)
+                j = 0
+                while j < len(small["items"]) - 1:
+                    c2 = dict(small, items=small["items"][:j] + small["items"][j + 1:])
+                    if still(c2):
+                        small = c2
+                    else:
+                        j += 1
+            if len(small["items"]) == 1 and not ctx.replaying:
+                # no history needed: it is a failure of the record by itself, reported (once) as such
+                evaluate(ctx, [dict(small["items"][0], layout=case.get("layout", 0), colour=case.get("colour", 0))])
+                if ctx.violations:
+                    return
+            r2 = run_seq(small)[-1]
+            ctx.fail(small, clause + " (record %d formatted by a formatter that has formatted others)" % len(small["items"]),
+                     impl={"out": r2[1], "fresh_formatter": r2[2]})
+            return
+        if got != want:
+            ctx.disagree(dict(case, items=case["items"][: i + 1]), {"shared_formatter": got}, {"fresh_formatter": want},
+                         "a LogFormatter that has formatted other records formats this one differently")
+            return
+
+
+def sequence_cases(ctx):
+    """records that collide on what a cache could be keyed on: same keys / other values, same length, same
+    values / other keys, JSON after plain text after JSON, URL after JSON"""
+    rng = ctx.rng
+    for r in range(ctx.scale(12, 120)):
+        items = []
+        shape = r % 4
+        ka, kb = rng.choice(["db_password", "x_token", "API_KEY"]), rng.choice(["note", "v", "keyboard"])
+        for i in range(rng.choice([2, 3, 6, 10])):
+            if shape == 0:      # same keys, same length, other values
+                items.append({"kind": "json", "obj": {ka: token(rng), kb: token(rng)}, "enc": 0, "level": 3})
+            elif shape == 1:    # same values under swapped keys: what was visible becomes secret and back
+                a, b = (token(rng), token(rng)) if i == 0 else (a, b)
+                items.append({"kind": "json", "obj": ({ka: a, kb: b} if i % 2 == 0 else {kb: a, ka: b}), "enc": 0, "level": 3})
+            elif shape == 2:    # JSON, plain text, URL, JSON ...
+                items.append([{"kind": "json", "obj": {ka: token(rng), kb: token(rng)}, "enc": i % 4, "level": i % 6},
+                              {"kind": "text", "text": "plain %s | text" % token(rng), "level": i % 6},
+                              {"kind": "url", "pre": "see ", "scheme": "https", "user": "u", "password": token(rng), "host": "h", "post": " | x", "level": i % 6}][i % 3])
+            else:               # growing, then the first one again
+                items.append({"kind": "json", "obj": {ka: token(rng) * (i + 1), kb: {"n": token(rng), ka: [token(rng)]}}, "enc": 0, "level": 3})
+        if shape == 3:
+            items.append(dict(items[0]))
+        yield {"kind": "seq", "items": items, "layout": r % len(LAYOUTS), "colour": r % len(COLOURS)}
+
+
+def dimension_cases(ctx):
+    """one dimension of the message grows at a time, through every power of two: the number of field separators
+    inside a value, the number of members, the length of a key, the length of a header field - what a guard like
+    `if len(parts) > 64` or `if len(record) > N` would be keyed on"""
+    rng = ctx.rng
+    top = ctx.scale(11, 14)
+    for k in range(0, top + 1):
+        n = 2 ** k
+        for m in (n - 1, n, n + 1):
+            if m < 1:
+                continue
+            i = k * 3 + m - n
+            yield frame(rng, kind="json", enc=i % 3, obj={"db_password": "|".join([token(rng)] + ["x"] * (m - 1) + [token(rng)]), "v": token(rng)})
+            if m <= 2049:
+                obj = {"k%d" % j: j for j in range(m - 1)}
+                obj["x_secret"] = token(rng)
+                obj["v"] = token(rng)
+                yield frame(rng, kind="json", enc=i % 3, obj=obj)
+                yield {"kind": "google", "obj": obj, "severity": 3, "span": 0}
+            yield frame(rng, kind="json", enc=0, obj={"v": token(rng), ("k" * m) + "_token": token(rng), "z": {("q" * m): token(rng)}})
+            yield frame(rng, kind="json", enc=0, name="n" * m + "|" * (m % 5), obj={"password": token(rng), "v": token(rng)})
+            yield frame(rng, kind="text", text="|".join(["f"] * m) + '| {"pwd": "%s", "v": "%s"}' % (token(rng), token(rng)))
+
+
 def replay(ctx, case):
     if isinstance(case, dict) and case.get("kind") == "e2e":
         replay_e2e(ctx, case)
+    elif isinstance(case, dict) and case.get("kind") == "seq":
+        eval_seq(ctx, case)
+    elif isinstance(case, dict) and case.get("kind") == "hist":
+        if not valid_hist(case):
+            raise InfraError("invalid hist case: %r" % (case,))
+        for b in case["before"]:  # the history: run, not judged
+            try:
+                clause_of(b)
+            except InfraError:
+                raise
+            except Exception:
+                pass
+        ctx.hit("replay:with-history=%d" % len(case["before"]))
+        replay(ctx, case["case"])
         return
-    evaluate(ctx, [case])
+    else:
+        evaluate(ctx, [case])
+    ctx.note("harness_degraded", list(_DEGRADED))
 
 
 KNOWN_PREDICATES = {}
